@@ -134,11 +134,14 @@ class Check:
         res['_rc'] = p.returncode
         return res
 
-    def run_harness_parallel(self, binary, args, behaviours, name='par', procs=8, timeout=1500, env=None):
+    def run_harness_parallel(self, binary, args, behaviours, name='par', procs=8, timeout=1500, env=None, max_per_proc=None):
         """Splits the behaviours over several harness processes ('-in' is appended); merges the results.
         Behaviour ids are global indexes into `behaviours`."""
         from concurrent.futures import ThreadPoolExecutor
         n = max(1, min(procs, len(behaviours)))
+        workers = n
+        if max_per_proc and len(behaviours) > n * max_per_proc:
+            n = (len(behaviours) + max_per_proc - 1) // max_per_proc
         chunks = [[] for _ in range(n)]
         for i, b in enumerate(behaviours):
             chunks[i % n].append({'id': i, 'states': b})
@@ -146,7 +149,7 @@ class Check:
 
         def one(f):
             return self.run_harness(binary, args + ['-in', f], timeout=timeout, env=env)
-        with ThreadPoolExecutor(max_workers=n) as ex:
+        with ThreadPoolExecutor(max_workers=workers) as ex:
             results = list(ex.map(one, files))
         for f in files:
             os.remove(f)
